@@ -166,9 +166,10 @@ class Run:
             print('%s [thorough] mutation sweep over %d functions: %d mutants, killed=%d no-verdict=%d survived=%d' % (
                 self.prop, self.sweep['functions'], self.sweep['mutants'], st.get('killed', 0), st.get('no-verdict', 0), st.get('survived', 0)))
         if not self.quiet:
-            print('%s [%s] rules=%d obligations=%d discharged=%d known=%d new=%d selftest=%d/%d wall=%.2fs' % (
+            skipped = sum(1 for s in self.selftest if str(s[2]).startswith('skipped'))
+            print('%s [%s] rules=%d obligations=%d discharged=%d known=%d new=%d selftest=%d/%d%s wall=%.2fs' % (
                 self.prop, self.tier, len(self.rule_counts), n_all, n_ok, len(seen_known), len(seen_new),
-                sum(1 for s in self.selftest if s[3]), len(self.selftest), wall))
+                sum(1 for s in self.selftest if s[3]) - skipped, len(self.selftest), ' (%d not applicable to this tree)' % skipped if skipped else '', wall))
             for l in lines:
                 print(l)
         return 1 if seen_new else 0
